@@ -111,7 +111,7 @@ def _events_agree(ctx, case, p, times, amps, duration, runs, sig):
     return True
 
 
-def _redundant_change_points(ctx, lif, case, p, times, amps, duration, base, sig, rng):
+def _redundant_change_points(ctx, lif, case, p, times, amps, duration, base, sig, rng, same_dt_spikes=None):
     """the same input *function* written with redundant change points - the zero current before the first change made
     explicit as (0.0, 0.0), or a change point that repeats the amplitude already in force - gives the same spike times
     (this is how finding F13 shows without any reference solution)"""
@@ -123,9 +123,11 @@ def _redundant_change_points(ctx, lif, case, p, times, amps, duration, base, sig
     if t_mid > times[j] and (j + 1 >= len(times) or t_mid < times[j + 1]):
         variants.append(("repeat-amplitude", list(times[:j + 1]) + [t_mid] + list(times[j + 1:]),
                          list(amps[:j + 1]) + [amps[j]] + list(amps[j + 1:])))
-    if base:
-        # ... and a redundant change point placed exactly on one of the spike times the loop itself computed
-        ts = rng.choice(base[:8])
+    if same_dt_spikes:
+        # ... and a redundant change point placed exactly on one of the spike times the loop itself computed - taken from
+        # the run with the *same* recording interval as the variant run, so that the coincidence is exact in that run too
+        # (a change point one ulp beside a crossing is a rounding matter, not one of the dynamics: see DESIGN section 5)
+        ts = rng.choice(same_dt_spikes[:8])
         j = sum(1 for t in times if t <= ts) - 1
         if j >= 0 and ts > times[j]:
             variants.append(("repeat-amplitude-on-spike", list(times[:j + 1]) + [ts] + list(times[j + 1:]),
@@ -392,7 +394,7 @@ def run(ctx):
                         observed=[r.spikes[-4:] for r in runs])
         elif p.v_threshold > 1e-3 and not _events_agree(ctx, case, p, times, amps, duration, runs, sig):
             pass
-        elif not _redundant_change_points(ctx, lif, case, p, times, amps, duration, base, sig, rng):
+        elif not _redundant_change_points(ctx, lif, case, p, times, amps, duration, base, sig, rng, runs[1].spikes):
             pass
         else:
             # voltages at coinciding record times (all multiples of 0.039 = 3*0.013 = 1.3*0.03 ...)
